@@ -108,5 +108,33 @@ theorem iter_decrement_eq (c : Cyc) (h : c.Inside) (k : Nat) :
           = (c.it - c.first - 1) % (c.second - c.first) + (-(k : Int)) by omega, Int.emod_add_emod]
     congr 1; omega
 
+/-- every operation moves by its displacement modulo the boundary length -/
+theorem apply_eq (c : Cyc) (h : c.Inside) (o : CycOp) :
+    c.apply o = .ok (c.atOffset ((c.it - c.first + cycNet [o]) % (c.second - c.first))) := by
+  have hlt : c.first < c.second := by have := h.1; have := h.2; omega
+  cases o with
+  | inc => simp only [apply, increment_eq c h, cycNet]; first | rfl | (congr 3; omega)
+  | dec => simp only [apply, decrement_eq c h, cycNet]; first | rfl | (congr 3; omega)
+  | adv n => simp only [apply, advance_eq c n hlt, cycNet]; first | rfl | (congr 3; omega)
+
+theorem run_eq (c : Cyc) (h : c.Inside) (ops : List CycOp) :
+    c.run ops = .ok (c.atOffset ((c.it - c.first + cycNet ops) % (c.second - c.first))) := by
+  have hlt : c.first < c.second := by have := h.1; have := h.2; omega
+  induction ops generalizing c with
+  | nil =>
+    simp only [run, cycNet, atOffset]
+    rw [show c.it - c.first + 0 = c.it - c.first by omega,
+      Int.emod_eq_of_lt (by have := h.1; omega) (by have := h.2; omega)]
+    cases c; simp; omega
+  | cons o os ih =>
+    simp only [run, apply_eq c h o]
+    have hin := atOffset_inside c (c.it - c.first + cycNet [o]) hlt
+    rw [ih _ hin (by simpa [atOffset] using hlt)]
+    simp only [atOffset]
+    have key : c.it - c.first + cycNet [o] + cycNet os = c.it - c.first + cycNet (o :: os) := by
+      cases o <;> simp [cycNet] <;> omega
+    rw [show c.first + (c.it - c.first + cycNet [o]) % (c.second - c.first) - c.first
+          = (c.it - c.first + cycNet [o]) % (c.second - c.first) by omega, Int.emod_add_emod, key]
+
 end Cyc
 end Fcppt.C18
